@@ -116,7 +116,7 @@ Theorem same_bytes_history_bytes (H : bytes -> bytes) ops cm before t :
   let b0 := fst (run H builder_new (rev before)) in
   let b := fst (run H builder_new ops) in
   is_ok (calc_script_data_hash H b0 cm) = true ->
-  has_script_items b0 || is_none (b_script_data_hash b0) = true ->
+  has_script_items b0 || is_none (b_script_data_hash b0) || (calc_clears_own_hash && b_hash_calculated b0) = true ->
   known_stale_lang b0 = false ->
   build_tx H b = Ok t ->
   Forall (fun kv => item_wf (snd kv) = true) (ws_fields (tx_witness_set t)) ->
@@ -304,7 +304,8 @@ Theorem judge_builder_accepts_model (H : bytes -> bytes) ops cm before other t :
   build_tx H (fst (run H builder_new ops)) = Ok t ->
   last_calc_rev (rev ops) = Some (cm, before) ->
   is_ok (calc_script_data_hash H (fst (run H builder_new (rev before))) cm) = true ->
-  has_script_items (fst (run H builder_new (rev before))) || is_none (b_script_data_hash (fst (run H builder_new (rev before)))) = true ->
+  has_script_items (fst (run H builder_new (rev before))) || is_none (b_script_data_hash (fst (run H builder_new (rev before))))
+    || (calc_clears_own_hash && b_hash_calculated (fst (run H builder_new (rev before)))) = true ->
   known_stale_lang (fst (run H builder_new (rev before))) = false ->
   other_ok other -> len (body_fields other t) < two64 ->
   hash_ok (tx_script_data_hash t) -> hash_ok (tx_aux_data_hash t) ->
@@ -316,6 +317,10 @@ Proof.
   unfold judge_builder. rewrite (view_tx_sound other t Ho Hlen Hs Ha Hws Haux).
   cbn [v_aux_hash v_aux v_script_data_hash v_redeemers v_datums].
   rewrite (aux_hash H _ _ Hb), opt_bytes_eqb_refl. cbn [negb].
-  rewrite Hl, Hok, Hprior. cbn [andb].
+  assert (Hscope : has_script_items (fst (run H builder_new (rev before))) || is_none (b_script_data_hash (fst (run H builder_new (rev before))))
+                   || b_hash_calculated (fst (run H builder_new (rev before))) = true).
+  { apply orb_true_iff in Hprior as [Hp|Hp]; [rewrite Hp; reflexivity|].
+    apply andb_true_iff in Hp as [_ Hp]. rewrite Hp. apply orb_true_r. }
+  rewrite Hl, Hok, Hscope. cbn [andb].
   rewrite (same_bytes_history H ops cm before t Hl Hok Hprior Hstale Hb), opt_bytes_eqb_refl. reflexivity.
 Qed.
